@@ -23,7 +23,7 @@ from vf import streamcases as sc
 THEOREMS = ["C01_generated_cfg_good", "C01_generated_pack_is_config_free", "C01_stream_roundtrip", "C01_field_roundtrip", "C01_envelope_roundtrip",
             "C01_hypotheses_satisfiable", "C01_sample_reads_back", "C01_refuted_version_restamped",
             "C01_refuted_nested_list_becomes_tuple", "C01_refuted_small_ipv6_as_integer",
-            "C01_generated_ip6_small_packed"]
+            "C01_generated_ip6_small_packed", "C01_appended_streams", "C01_appended_sample_reads_back"]
 
 HYP_HEADER = sc.HEADER + """
 From FR Require Import Values_proofs Roundtrip_proofs.
@@ -123,25 +123,110 @@ def path_roundtrip(ctx, items, ext, stream_bytes):
     return rb, raw
 
 
+def raw_form(x):
+    """A plain Python value that the element type of a typed list converts back to exactly x (or None when there is no
+    such form for this value): what an application appends to / stores in a typed list behind the field type's back."""
+    import datetime as pydt
+
+    from flow.record import fieldtypes as ft
+    from flow.record.fieldtypes.net import ip as ftip
+    t = type(x)
+    try:
+        if isinstance(x, ft.digest):
+            raw = (x.md5, x.sha1, x.sha256)
+        elif isinstance(x, ft.datetime):
+            raw = pydt.datetime(x.year, x.month, x.day, x.hour, x.minute, x.second, x.microsecond, tzinfo=x.tzinfo, fold=x.fold)
+        elif isinstance(x, ft.path):
+            raw = str(x)
+        elif isinstance(x, (ftip.ipaddress, ftip.ipnetwork)):
+            raw = str(x)
+        elif isinstance(x, bool) or t.__name__ == "boolean":
+            raw = bool(x)
+        elif isinstance(x, int):
+            raw = int(x)
+        elif isinstance(x, float):
+            raw = float(x)
+        elif isinstance(x, str):
+            raw = str.__str__(x) if type(x) is not str else None
+            raw = "".join(raw) if raw is not None else None
+        elif isinstance(x, bytes):
+            raw = bytes(x)
+        else:
+            return None
+        if raw is None or type(raw) is t:
+            return None
+        back = t(raw) if not isinstance(x, ft.path) else ft.path(raw)
+        if type(back) is not t or repr(back) != repr(x) or (back != x and not isinstance(x, ft.digest)):
+            return None
+        return raw
+    except Exception:  # noqa
+        return None
+
+
+def stage_raw(item):
+    """Replaces, IN PLACE, the elements of every typed list the item holds (nested and grouped records included) by their
+    raw forms; returns how many elements were replaced."""
+    from flow.record import GroupedRecord, Record
+    n = 0
+    if isinstance(item, GroupedRecord):
+        return sum(stage_raw(m) for m in item.records)
+    if not isinstance(item, Record):
+        return 0
+    for name in item.__slots__:
+        try:
+            v = getattr(item, name)
+        except AttributeError:
+            continue
+        if isinstance(v, Record):
+            n += stage_raw(v)
+        elif isinstance(v, list) and getattr(type(v), "__type__", None) is not None:
+            for j, e in enumerate(list(v)):
+                if isinstance(e, Record):
+                    n += stage_raw(e)
+                    continue
+                raw = raw_form(e)
+                if raw is not None:
+                    list.__setitem__(v, j, raw)
+                    n += 1
+    return n
+
+
 def generate_cases(ctx, n, check_paths=True):
     from flow.record.base import ignore_fields_for_comparison
     rnd = random.Random(ctx.seed)
     out = []
     exts = [".records", ".records.gz", ".records.bz2", ".records.lz4", ".records.zst"]
     for i in range(n):
+        state = rnd.getstate()
         g = recgen.Gen(rnd, legacy=(i % 6 == 0))
         try:
             items = g.items(rnd.choice([1, 1, 2, 3, 4]))
         except recgen.DescriptorMismatch as e:
             out.append(dict(index=i, items=[], obs=[], error="DescriptorMismatch: %s" % e))
             continue
+        # in a quarter of the cases the records that are WRITTEN are twins of the generated ones whose typed lists hold
+        # raw, unconverted elements (an application appended to / assigned into the list after construction): what is
+        # written and read back is the value the field type makes of them, i.e. the generated records
+        to_write, staged = items, 0
+        if i % 4 == 1:
+            after = rnd.getstate()
+            rnd.setstate(state)
+            try:
+                twins = recgen.Gen(rnd, legacy=(i % 6 == 0)).items(rnd.choice([1, 1, 2, 3, 4]))
+            except recgen.DescriptorMismatch:
+                twins = None
+            if rnd.getstate() == after and twins is not None and len(twins) == len(items):
+                staged = sum(stage_raw(t) for t in twins)
+                if staged:
+                    to_write = twins
+            rnd.setstate(after)
         try:
             obs = [recgen.obs_item(x) for x in items]
         except recgen.Unobservable as e:
             # a constructed record holding a value that is not of its declared kind: C05's business; skip here
             ctx.notes.append("skipped unobservable generated record: %s" % e)
             continue
-        case = dict(index=i, items=items, obs=obs)
+        case = dict(index=i, items=items, obs=obs, raw_staged=staged)
         # process configuration that must not leak into what is written: the ignored-fields set of record comparison
         # (FLOW_RECORD_IGNORE / set_ignored_fields_for_comparison) is non-empty in a third of the cases
         ignored = None
@@ -155,7 +240,7 @@ def generate_cases(ctx, n, check_paths=True):
         scope = ignore_fields_for_comparison(ignored) if ignored else contextlib.nullcontext()
         with scope:
             try:
-                data = sc.write_stream_bytes(items)
+                data = sc.write_stream_bytes(to_write)
                 rb = sc.read_stream_items(data)
                 case.update(data=data, rb=rb, rbo=[recgen.obs_item(x, True) for x in rb])
             except Exception as e:  # noqa
@@ -163,12 +248,19 @@ def generate_cases(ctx, n, check_paths=True):
             if check_paths and "error" not in case:
                 ext = exts[i % len(exts)]
                 try:
-                    prb, raw = path_roundtrip(ctx, items, ext, case["data"])
+                    prb, raw = path_roundtrip(ctx, to_write, ext, case["data"])
                     case.update(ext=ext, path_rb=prb, path_raw=raw)
                 except Exception as e:  # noqa
                     case["path_error"] = "%s via %s: %s" % (type(e).__name__, ext, e)
         out.append(case)
     return out
+
+
+def staged_note(cs):
+    if not cs.get("raw_staged"):
+        return ""
+    return (" (the written records are twins of the listed ones whose typed lists hold %d raw, unconverted elements - str for path / "
+            "address, int, hex tuple for digest ... - put there behind the field type's back with list.__setitem__)" % cs["raw_staged"])
 
 
 def check_property(ctx, cases):
@@ -178,12 +270,13 @@ def check_property(ctx, cases):
         nontrivial = any(v[0] != "none" for o in cs["obs"] for v in (o[3][:-4] if o[0] == "rec" else [("x",)]))
         ctx.count_case(cs["obs"], nontrivial=nontrivial)
         if "error" in cs:
-            ctx.violation("writing/reading a generated sequence raised %s" % cs["error"],
-                          dict(kind="roundtrip-raises", case=cs["index"], ignored_fields_for_comparison=cs.get("ignored_fields"), items=[repr(x) for x in items], error=cs["error"]))
+            ctx.violation("writing/reading a generated sequence raised %s%s" % (cs["error"], staged_note(cs)),
+                          dict(kind="roundtrip-raises", case=cs["index"], ignored_fields_for_comparison=cs.get("ignored_fields"), items=[repr(x) for x in items],
+                               raw_staged_list_elements=cs.get("raw_staged", 0), error=cs["error"]))
             return True
         ok, a, b = deep_equal(items, cs["rb"])
         if not ok:
-            ctx.violation("stream round trip changed a record%s: %s" % (" (written while the ignored-fields set of record comparison was %s)" % cs["ignored_fields"] if cs.get("ignored_fields") else "", first_difference(a, b)),
+            ctx.violation("stream round trip changed a record%s%s: %s" % (staged_note(cs), " (written while the ignored-fields set of record comparison was %s)" % cs["ignored_fields"] if cs.get("ignored_fields") else "", first_difference(a, b)),
                           dict(kind="roundtrip", case=cs["index"], ignored_fields_for_comparison=cs.get("ignored_fields"), items=[repr(x) for x in items],
                                readback=[repr(x) for x in cs["rb"]], difference=first_difference(a, b)))
             return True
@@ -199,6 +292,32 @@ def check_property(ctx, cases):
                                    difference=first_difference(a, b)))
                 return True
     return False
+
+
+def appended_stream_cases(ctx, cases):
+    """Two record streams one after the other in one file (cat a.records b.records, a second writer appending to the file
+    of a first): the reader skips the second header, takes the repeated / changed definitions as they come and yields
+    every record of both parts.  Returns (violation reported?, Coq terms read_ok for the concatenations)."""
+    terms = []
+    good = [cs for cs in cases if "error" not in cs and cs.get("items")]
+    for a, b in zip(good[0::3], good[1::3]):
+        data = a["data"] + b["data"]
+        items = a["items"] + b["items"]
+        ctx.count_case(("appended", a["index"], b["index"]))
+        try:
+            rb = sc.read_stream_items(data)
+            okeq, x, y = deep_equal(items, rb)
+            problem = None if okeq else "records read back differ: %s" % first_difference(x, y)
+        except Exception as e:  # noqa
+            problem = "reading raised %s: %s" % (type(e).__name__, e)
+        if problem:
+            ctx.violation("two streams written one after the other into one file (%d + %d records): %s" % (len(a["items"]), len(b["items"]), problem),
+                          dict(kind="appended-streams", first=[repr(i) for i in a["items"]], second=[repr(i) for i in b["items"]],
+                               stream_hex=data.hex()[:6000], problem=problem))
+            return True, terms
+        rbo = a["rbo"] + b["rbo"]
+        terms.append(sc.render_case(rbo, data, rbo, kind="read_ok"))
+    return False, terms
 
 
 def replay_findings(ctx):
@@ -386,7 +505,7 @@ def search(ctx, reason):
     cases = generate_cases(ctx, 150, check_paths=False)
     if check_property(ctx, cases):
         return True
-    if refused_write_cases(ctx) or rewrite_after_mutation_cases(ctx):
+    if appended_stream_cases(ctx, cases)[0] or refused_write_cases(ctx) or rewrite_after_mutation_cases(ctx):
         return True
     # descriptor-registry histories (same-name / identifier-coincident / nested / grouped descriptors): a record decoded
     # with another descriptor is a round-trip failure too
@@ -419,6 +538,9 @@ def run(ctx):
     cases = generate_cases(ctx, n)
     if check_property(ctx, cases):
         return
+    found, appended_terms = appended_stream_cases(ctx, cases)
+    if found:
+        return
     replay_findings(ctx)
     if fresh_process_smoke(ctx) or refused_write_cases(ctx) or rewrite_after_mutation_cases(ctx):
         return
@@ -429,7 +551,7 @@ def run(ctx):
     if found:
         return
     # model = implementation, inside Coq
-    terms = [sc.render_case(cs["obs"], cs["data"], cs["rbo"]) for cs in cases]
+    terms = [sc.render_case(cs["obs"], cs["data"], cs["rbo"]) for cs in cases] + appended_terms
     shard = max(1, (len(terms) + 15) // 16)
     failing, err = core.eval_bool_cases(ctx, sc.HEADER, terms, shard_size=shard, name="c01", timeout=900)
     if err:
@@ -437,7 +559,7 @@ def run(ctx):
         return
     ctx.coverage["traces_validated_against_impl"] = len(terms) - len(failing)
     if failing:
-        cs = cases[failing[0]]
+        cs = cases[failing[0]] if failing[0] < len(cases) else dict(index="appended-%d" % (failing[0] - len(cases)), items=[], data=b"")
         ctx.violation(
             "model (coq/model/Stream.v) and implementation disagree on %d of %d sequences (bytes written or records read back); "
             "the round-trip property itself held on all of them" % (len(failing), len(terms)),
